@@ -43,7 +43,7 @@ func init() {
 		Floors: func(t string) map[string]int64 {
 			return map[string]int64{"len.0": 20, "len.1": 20, "len.2": 20, "len.3": 20, "simple_input.judged": 3000, "dropped_vertices.checked": 10000, "shape.hook": 500, "shape.spiral": 500, "shape.out_and_back": 500,
 				"tol.zero": 500, "tol.inf": 500, "storage.members_share_one_backing_array": 1000, "polygon.rings_unclosed": 500, "revisit.judged": 500, "boxwalk.simple_judged": 50000, "boxwalk.on_an_integer_lattice": 10000, "boxwalk.tail_returns_into_pocket": 10000, "boxwalk.vertices_dropped": 25000, "multi.members_independent": 500, "polygon.rings": 500, "hook.steps_seen": 10000,
-				"far.simple_judged": 2000, "far.vertices_dropped": 500, "far.ordinary_vertex_kept_for_tolerance": 300, "far.end_beyond_1e154": 1000, "far.ordinary_part_tiny": 1000, "far.end_in_the_last_binade": 500, "far.ends_on_opposite_sides_in_the_last_binade": 300, "far.short_cut_across_the_far_segment": 1500}
+				"far.simple_judged": 2000, "far.vertices_dropped": 500, "far.ordinary_vertex_kept_for_tolerance": 300, "far.end_beyond_1e154": 1000, "far.ordinary_part_tiny": 1000, "far.end_in_the_last_binade": 500, "far.ends_on_opposite_sides_in_the_last_binade": 300, "far.short_cut_across_the_far_segment": 1500, "far.short_cut_with_products_either_side_of_overflow": 800}
 		},
 	})
 }
